@@ -57,6 +57,38 @@ CLAIMED = {
              "length by the stack buffer size before copying; checkType throws on mismatch. Value round-trip itself is not decided.",
         technique="sibling-implementation agreement (SIBLING) over linearised AST operations + CFG dominance of bounded copies",
         design="5/C58"),
+    "C27": dict(
+        text="Overflow obligation of the strtol-style accumulate idiom in Parser::Tokenizer::int64: every constant limit flowing into `cutoff` "
+             "fits the accumulator's type, the multiply/add are dominated by the cutoff guard and the digit<base test, overflow is sticky, the consumed "
+             "length is the scanned length; httpHeaderParseOffset returns true only past its errno/ERANGE/empty gates; anchored parsers must not use "
+             "atoi-class functions (httpHeaderParseInt does: known finding). Found and repaired: the 2^63 limit was accumulated in int64_t (UB).",
+        technique="ACC obligation on front-end-evaluated constants and declared types + CFG dominance + banned-callee (LOSSY) rule",
+        design="5/C27, 6(a),(f)"),
+    "C28": dict(
+        text="In HttpHdrRangeSpec::parseInit every signed `parsed + constant` is dominated by an upper bound on the parsed operand (found and "
+             "repaired: last_pos + 1 for last_pos == INT64_MAX), a range is built only after both offsets parsed, are >= 0 and last >= first, and "
+             "every failing parse/unknown value returns false. Covered-byte-set equality and canonize/merge arithmetic are not decided.",
+        technique="ARITH: dominating-bound obligation for arithmetic on parse results (guard intervals from must-facts) + response rules",
+        design="5/C28, 6(b)"),
+    "C30": dict(
+        text="At the point AnyP::Uri::parse stores the port, the guards on every path confine it to [1,65535] and the host passed the empty-label "
+             "rejection; parsePort returns only past the zero-prefix throw, a strict decimal int64 and the 65535 bound; the port must not come "
+             "from atoi (it does in parse(): known finding with replay). Canonical-form idempotence is not decided.",
+        technique="guard-interval (GINT) from must-facts + CFG dominance/response + banned-callee (LOSSY) rule",
+        design="5/C30, 6(g)"),
+    "C40": dict(
+        text="At addr.port(port) in Ftp::ParseProtoIpPort and Ftp::ParseIpPort the configuration-independent guards on every path give a port in "
+             "[1,65535] (octets in [0,255], port = (p1<<8)+p2 > 0, all 6 fields converted; the EPSV port keeps strtol's full width until checked). "
+             "Found and repaired: ParseProtoIpPort accepted 0, 70000, 4294967317. Listing-parser memory safety is not decided.",
+        technique="guard-interval (GINT) from must-facts + narrowing-cast check on declared types",
+        design="5/C40, 6(c)"),
+    "C52": dict(
+        text="Guard structure of both IncreaseSumInternal overloads on all paths (raw a+b only after a>=0, b>=0, !Less(max-a,b); unsigned result only "
+             "if no wrap and <= max(S)), plus compile-time witnesses against the current header: the API instantiates for all 64 integer type pairs, "
+             "Less() equals exact 128-bit comparison and the constexpr signed sum equals exact sum-or-nothing on 8x8 boundary grids per type pair "
+             "(constant-evaluated by clang), and float/enum misuse fails to compile. Not a proof for all values.",
+        technique="CFG dominance on the template pattern + compile-time witness TU (static_assert grids, compile-fail witnesses)",
+        design="5/C52"),
 }
 
 NOT_APPLICABLE = {
